@@ -112,6 +112,9 @@ static void one_dimensional(unsigned long long& unit)
 	auto F = families();
 	// (the last three: non-empty intervals narrower than any absolute width threshold; the integral is f(mid)*width to 1e-9)
 	std::vector<std::pair<double, double>> ivs = {{0, 1}, {-1, 2}, {0, 2}, {-0.5, 0.5}, {1, 1 + std::ldexp(1.0, -41)}, {0, 1e-13}, {-3e-14, 2e-14}};
+	if(mc::thorough())
+		for(auto iv : std::vector<std::pair<double, double>>{{-2, 3}, {0.25, 0.75}, {10, 11}, {-1e-3, 1e-3}, {-0.1, 1.9}, {1e6, 1e6 + 0.5}, {-7, -6.5}, {2, 2 + 1e-9}, {0, 1e-100}})
+			ivs.push_back(iv);
 	if(mc::shard0()) { mc::alphabet("methods", METHODS.size()); mc::alphabet("integrand_families", F.size()); mc::alphabet("intervals_1d", ivs.size()); }
 	for(auto& fam : F)
 		for(auto& iv : ivs)
@@ -126,7 +129,8 @@ static void one_dimensional(unsigned long long& unit)
 				double om = mc::parsed(fam.name.substr(fam.name.find("_w") + 2));
 				if(om * (iv.second - iv.first) > 4 * M_PI + 1e-9) { mc::count("cases_outside_family_more_than_two_periods", 1); continue; }
 			}
-			if(ex == 0) { mc::count("cases_skipped_integral_vanishes", 1); continue; }
+			if(fam.name.rfind("inverse_s", 0) == 0 && !(std::min(iv.first, iv.second) + mc::parsed(fam.name.substr(9)) > 0.5)) { mc::count("cases_outside_family_pole_in_interval", 1); continue; }
+			if(ex == 0 || !std::isfinite((double)ex)) { mc::count("cases_skipped_integral_vanishes", 1); continue; }
 			ld kap = kappa(fam, iv.first, iv.second);
 			if(kap > 1e6L || fabsl(ex) < 1e-6L * fabsl((ld)iv.second - iv.first)) { mc::count("cases_skipped_integral_vanishes", 1); continue; }
 			for(auto& m : METHODS)
